@@ -3,8 +3,9 @@
 Domain: every (parser, member) pair, exhaustively, in the spellings the parser documents; every
 string-or-enum call site; generated non-member strings (random unicode, edits and case variants of
 member values/names).  Oracle: parse(member.value) *is* the member; a non-member string is rejected
-(exception), yields no member (None), the documented fallback, or — leniently — the member whose
-value/name it spells in another letter case; both spellings at a call site behave identically.
+(exception), yields no member (None) or the documented fallback; where a parser documents upper/lower-case
+spellings (FrameID, MatchingLabelPolicy) another letter case of a member's value/name may give that member;
+both spellings at a call site behave identically.
 """
 import itertools
 
@@ -17,15 +18,16 @@ CHECK = Check(
     rule=(
         "members: every (parser, member, spelling) triple, enumerated completely; call sites: every FrameID pair "
         "x spelling for TransformKey/TransformDict/HomogeneousMatrix, every ShapeType for Shape, every task x "
-        "prefix x merge for LabelConverter; non-member strings from Hypothesis (unicode text, 1-edit and case "
+        "prefix x merge for LabelConverter; case_variants: every (parser without documented letter-case handling, member, "
+        "upper/title/capitalize/swapcase/NAME/name) spelling that is not itself a value; non-member strings from Hypothesis (unicode text, 1-edit and case "
         "variants of member values and names). Non-trivial = a (parser, member, spelling) triple or call-site "
         "combination, or a generated string that is not the value of any member of the parser's enum; distinct by "
         "descriptor hash."
     ),
     assumptions=[
-        "'rejected' is read as: an exception, or no member at all (None); a non-member string that spells a "
-        "member's value or name in another letter case may also yield that member (the statement does not forbid "
-        "case-insensitive parsers)",
+        "'rejected' is read as: an exception, or no member at all (None); a string that spells a member's value or "
+        "name in another letter case counts as a member spelling only for the parsers that document it "
+        "(FrameID.from_value, MatchingLabelPolicy.from_str) and as 'any other string' for the rest",
         "documented fallback: Visibility.UNAVAILABLE for unknown visibility levels",
     ],
     design_ref="§6 C20",
@@ -118,6 +120,45 @@ def members(ctx, d):
             f"member-not-returned:{d['parser']}",
             f"{d['parser']}({s!r}) returned {got!r} ({type(got).__name__}), expected the member {enum_cls.__name__}.{m.name}",
         )
+
+
+# ------------------------------------------------------------------------------------------------
+# exhaustive: other letter cases of a member's value / name, for parsers that do not document them
+# ------------------------------------------------------------------------------------------------
+
+
+def gen_case_variants(tier):
+    ps = _parsers()
+    for pname in PARSER_NAMES:
+        enum_cls, _, spellings, _ = ps[pname]
+        if "upper" in spellings or "lower" in spellings:
+            continue
+        values = {m.value for m in enum_cls}
+        for m in enum_cls:
+            for how in ("upper", "title", "capitalize", "swapcase", "name", "name_lower"):
+                base = m.name if how.startswith("name") else m.value
+                s_ = {"upper": base.upper(), "title": base.title(), "capitalize": base.capitalize(), "swapcase": base.swapcase(), "name": base, "name_lower": base.lower()}[how]
+                if s_ not in values and s_ not in VIS_ALIASES:
+                    yield {"parser": pname, "member": m.name, "how": how, "s": s_}
+
+
+@CHECK.enum("case_variants", gen_case_variants)
+def case_variants(ctx, d):
+    ctx.mark_nontrivial()
+    enum_cls, fn, _, fallback = _parsers()[d["parser"]]
+    ctx.cls(d["parser"])
+    try:
+        got = fn(d["s"])
+    except Exception:  # noqa: BLE001 -- rejection is the expected outcome
+        ctx.cls("rejected")
+        return
+    ok = got is None or (fallback is not None and got is enum_cls[fallback])
+    ctx.cls("none_or_fallback" if ok else "accepted")
+    ctx.require(
+        ok,
+        f"nonmember-accepted:{d['parser']}",
+        f"{d['parser']}({d['s']!r}) returned {got!r}: not the value of any member and this parser documents no other letter case; allowed: exception, None{', ' + fallback if fallback else ''}",
+    )
 
 
 # ------------------------------------------------------------------------------------------------
@@ -312,7 +353,9 @@ def nonmember_strings(ctx, d):
     if got is None:
         ctx.cls("none")
         return
-    allowed = [m for m in enum_cls if s.lower() in (m.value.lower(), m.name.lower())]
+    # another letter case of a member's value / name is a member spelling only where the parser documents it
+    # (FrameID.from_value, MatchingLabelPolicy.from_str); everywhere else it is "any other string"
+    allowed = [m for m in enum_cls if s.lower() in (m.value.lower(), m.name.lower())] if ("upper" in spellings or "lower" in spellings) else []
     if d["parser"].startswith("Visibility") and s in VIS_ALIASES:
         allowed.append(enum_cls[VIS_ALIASES[s]])
     if fallback is not None:
